@@ -752,6 +752,12 @@ class Terms:
             keep = {k: v for k, v in body_env.items() if k not in tnames and k not in pre_env}
             e2 = self.expand(e, env=keep, dirty=body_dirty)
             ifs = [self.expand(c, env=keep, dirty=body_dirty) for c in conds]
+            # values bound before the loop and left alone by it (a step width, a bound) are part of the term as well
+            loop_names, _ = self._assigned_in(st.body)
+            outer = {k: v for k, v in pre_env.items() if k not in loop_names and k not in tnames and k != acc and k not in pre_dirty}
+            if outer:
+                e2 = self.expand(e2, env=outer, dirty=pre_dirty)
+                ifs = [self.expand(c, env=outer, dirty=pre_dirty) for c in ifs]
             it = self.expand(st.iter, env=pre_env, dirty=pre_dirty)
             comp = ast.ListComp(elt=e2, generators=[ast.comprehension(target=copy.deepcopy(st.target), iter=it,
                                                                        ifs=ifs, is_async=0)])
